@@ -524,7 +524,9 @@ ONLY = {"comm.py": {"CommHandler": [
     "_nxslib_channels_div", "_ch_divider_default", "_channels_init", "dev", "flags_is_overflow",
     "stream_start", "stream_stop", "channels_write", "ch_enable", "ch_disable", "ch_divider",
     "ch_enable_all", "ch_disable_all", "ch_is_enabled", "ch_div_get", "channels_default_cfg",
-    "_nxslib_cmninfo", "_nxslib_chinfo"]}}
+    "_nxslib_cmninfo", "_nxslib_chinfo",
+    # the description phase of the handshake (the frame queues and the link are scripted stubs)
+    "_devinfo_get", "_drop_all", "_drop_all_frames", "_get_stream_frame"]}}
 
 MODULES = ["proto/iframe.py", "proto/serialframe.py", "dev.py", "proto/iparse.py", "proto/parse.py",
            "proto/iparserecv.py", "proto/parserecv.py", "intf/iintf.py", "comm.py", "$prelude"]
